@@ -100,6 +100,20 @@ func Eval(c Case) evid.Verdict {
 			case "wait":
 				time.Sleep(time.Duration(op.Ms) * time.Millisecond)
 				tr("wait %d ms", op.Ms)
+			case "reload-ccache":
+				// the client's tickets go through a credential cache file (as after kinit / a restart): the latest TGT and the latest
+				// ticket of every service, with the times the KDC gave them, written by the independent writer; the history goes on
+				// with a client built from that cache
+				ncl, err := reloadFromCCache(w)
+				tr("reload-ccache -> %v", err)
+				if err != nil {
+					return evid.Fail("harness", "reload through a credential cache: %v%s", err, ctx())
+				}
+				old := cl
+				cl = ncl
+				old.Destroy()
+				defer ncl.Destroy()
+				loggedIn = true
 			case "login", "affirm":
 				var err error
 				done := make(chan struct{})
@@ -306,6 +320,7 @@ func drawSpec(t *rapid.T, timed bool) Spec {
 		NoAddr: rapid.Bool().Draw(t, "noaddr"), RenewLife: rapid.SampledFrom([]string{"", "10m", "7d"}).Draw(t, "renew"),
 		TicketLife: rapid.SampledFrom([]string{"", "10m", "1h"}).Draw(t, "tlife"), Hops: rapid.SampledFrom([]int{0, 0, 0, 1, 1, 2, 3, 4, 5, 6, 8}).Draw(t, "hops"),
 		Via: rapid.SampledFrom([]string{"referral", "domain_realm"}).Draw(t, "via"), KDCs: rapid.IntRange(1, 3).Draw(t, "kdcs"), DupKDC: rapid.IntRange(0, 5).Draw(t, "dupkdc") == 0, Loop: rapid.IntRange(0, 3).Draw(t, "loop") == 0}
+	s.LegacyInfo = rapid.SampledFrom([]string{"", "", "", "after", "before"}).Draw(t, "legacy-info")
 	n := rapid.IntRange(1, 3).Draw(t, "netypes")
 	pool := append([]int32{}, ref.ETypes...)
 	for i := 0; i < n; i++ {
@@ -514,6 +529,14 @@ func TestProp(t *testing.T) {
 			Via: "referral", KDCs: 1, ClockSkewS: 3, Hops: k % 2, RenewLife: []string{"", "10m"}[(k/2)%2]},
 			Ops: []Op{{K: "login"}, {K: "ticket", SPN: 0}, {K: "ticket", SPN: 5}, {K: "wait", Ms: 3400}, {K: "ticket", SPN: 1}, {K: "cached", SPN: 0}, {K: "ticket", SPN: 5}, {K: "ticket", SPN: 0}}})
 	}
+	// the tickets go through a credential cache file in the middle of the history (kinit / restart): one service ticket ends
+	// 1.3 s after it was issued, long before the TGT; what the new client serves from its cache must still be valid
+	for k := 0; k < r.N(4, 12); k++ {
+		timedCases = append(timedCases, Case{Spec: Spec{Seed: r.Seed()*9311 + uint64(k), Cred: []string{"password", "keytab"}[k%2], ETypes: []int32{ref.ETypes[k%6]}, Preauth: []string{"none", "required"}[(k/2)%2],
+			Via: "referral", KDCs: 1, Hops: (k / 4) % 2, SvcLives: []LifeSpec{{StartMs: 0, EndMs: 1300}, {StartMs: 0, EndMs: 3600000}, {StartMs: 0, EndMs: 3600000}, {StartMs: 0, EndMs: 3600000}}},
+			Ops: []Op{{K: "login"}, {K: "ticket", SPN: 0}, {K: "ticket", SPN: 1}, {K: "reload-ccache"}, {K: "cached", SPN: 0}, {K: "cached", SPN: 1}, {K: "wait", Ms: 2700}, {K: "cached", SPN: 0}, {K: "cached", SPN: 1},
+				{K: "ticket", SPN: 0}, {K: "ticket", SPN: 1}, {K: "ticket", SPN: 3}, {K: "cached", SPN: 0}}})
+	}
 	run("timed", timedCases, 55)
 	// enumeration: every hop count x via x pre-auth policy x credential kind with a fixed probing history
 	var enum []Case
@@ -529,7 +552,7 @@ func TestProp(t *testing.T) {
 							continue
 						}
 						et := []int32{ref.ETypes[(hops+pi+ci)%6], ref.ETypes[(hops+pi+ci+2)%6]}
-						enum = append(enum, Case{Spec: Spec{Seed: r.Seed()*131 + uint64(len(enum)), Cred: cred, ETypes: et, Preauth: pre, Salted: salted, Hops: hops, Via: via,
+						enum = append(enum, Case{Spec: Spec{Seed: r.Seed()*131 + uint64(len(enum)), Cred: cred, ETypes: et, Preauth: pre, Salted: salted, Hops: hops, Via: via, LegacyInfo: []string{"", "after", "before"}[(len(enum)+hops)%3],
 							Loop: hops >= 1 && hops <= 3 && via == "referral", Params: (hops+pi)%2 == 0, Fwd: hops%2 == 0, Canon: pi%2 == 0, NoAddr: ci == 0, RenewLife: []string{"", "10m", "7d"}[(hops+pi)%3], TicketLife: []string{"", "10m", "1h"}[(hops+ci)%3], KDCs: 1 + hops%3},
 							Ops: []Op{{K: "login"}, {K: "ticket", SPN: 0}, {K: "ticket", SPN: 0}, {K: "ticket", SPN: 5}, {K: "ticket", SPN: 3}, {K: "ticket", SPN: 1}, {K: "cached", SPN: 0}, {K: "cached", SPN: 5}, {K: "ticket", SPN: 4}, {K: "ticket", SPN: 2}}})
 					}
